@@ -96,7 +96,7 @@ pub fn counting(ctx: &mut Ctx) {
             let own: Vec<f64> = s.get_hsketch().clone();
             let mut other = own.clone();
             if mismatch {
-                other.push(0.5);
+                if c % 2 == 0 { other.push(0.5); } else if other.len() > 1 { other.pop(); } else { other.push(0.5); other.push(0.25); }
             } else if n > 1 {
                 other[0] = -1.0;
             }
@@ -114,8 +114,8 @@ pub fn counting(ctx: &mut Ctx) {
             let own: Vec<u64> = s2.get_hsketch().clone();
             let mut other = own.clone();
             if mismatch {
-                other.pop();
-                other.pop();
+                // both directions: `other` shorter and `other` longer than the sketcher's own sketch
+                if c % 2 == 0 { other.pop(); if !other.is_empty() { other.pop(); } } else { other.push(17); other.push(own[0]); }
             } else {
                 other[n - 1] ^= 1;
             }
@@ -123,6 +123,16 @@ pub fn counting(ctx: &mut Ctx) {
             let txt = match &r { Ok(Ok(v)) => v.clone(), _ => "ERR".to_string() };
             ctx.line(&format!("jac f64 {} | {}", join(&own), join(&other)), &txt);
             if mismatch { expect_err(ctx, "SuperMinHash2::get_jaccard_index_estimate", false, &r, &own, &other); }
+            // the other way round: a sketcher of the other length against this sketch
+            if mismatch {
+                let mut s3 = superminhasher2::SuperMinHash2::<u64, u64, FnvHasher>::new(other.len().max(1), BuildHasherDefault::<FnvHasher>::default());
+                for x in 0..5u64 { s3.sketch(&x).unwrap(); }
+                let own3: Vec<u64> = s3.get_hsketch().clone();
+                let r = catch(std::panic::AssertUnwindSafe(|| s3.get_jaccard_index_estimate(&own).map(fhx).map_err(|_| "err".to_string())));
+                let txt = match &r { Ok(Ok(v)) => v.clone(), _ => "ERR".to_string() };
+                ctx.line(&format!("jac f64 {} | {}", join(&own3), join(&own)), &txt);
+                if own3.len() != own.len() { expect_err(ctx, "SuperMinHash2::get_jaccard_index_estimate (reverse)", false, &r, &own3, &own); }
+            }
         }
         // symmetry / identity / range on the implementation
         if !mismatch {
